@@ -1,6 +1,6 @@
 """Child process for C10/C20: parses inputs it reads as JSON lines and answers one JSON line per request.
 A hang (catastrophic regex backtracking, endless loop) can then be detected and killed by the parent.
-request: {"batch": [text, ...]}      answer: {"res": [[cls, digest, detail, nondeterministic, seconds], ...]}"""
+request: {"batch": [text, ...], "diag": bool}      answer: {"res": [[cls, digest, detail, nondeterministic, seconds, diag], ...]}"""
 import hashlib
 import json
 import os
@@ -28,7 +28,7 @@ def main():
             o2 = project.outcome(s)
             d1, d2 = dig(o1), dig(o2)
             detail = o1[1:3] if o1[0] not in ("ok",) else []
-            res.append([o1[0], d1, detail, d1 != d2, round(dt, 4)])
+            res.append([o1[0], d1, detail, d1 != d2, round(dt, 4), project.diag(s) if req.get("diag") else None])
         out.write(json.dumps({"res": res}) + "\n")
         out.flush()
 
